@@ -483,6 +483,9 @@ class Exec:
         m = re.match(r'^(\w+)::<.*>::(\w+)$', c)
         if m and (None, m.group(1), m.group(2)) in s.index:
             return s.pick(s.index[(None, m.group(1), m.group(2))])
+        m = re.match(r'^(?:\w+::)*<impl (\w+)<.*>>::(\w+)$', c)      # inherent method named through its module: impl_alloc::<impl GenericArray<T, N>>::f
+        if m and (None, m.group(1), m.group(2)) in s.index:
+            return s.pick(s.index[(None, m.group(1), m.group(2))])
         m = re.match(r'^(?:crate::)?(\w+)$', c)
         if m and (None, None, m.group(1)) in s.index:
             return s.pick(s.index[(None, None, m.group(1))])
@@ -660,6 +663,8 @@ class Exec:
                 return ('val', ArrRef(v.block.arr))
             if isinstance(v, BoxVal):
                 p = v.ptr
+                if isinstance(p, Slice):      # Box<[T]>
+                    return ('val', p)
                 return ('val', ArrRef(p.block.arr if isinstance(p, BlockPtr) else p))
             if isinstance(v, Ref):
                 return (v.cell, v.path)
@@ -1194,6 +1199,8 @@ class Exec:
                     inv.pc.append(z3.And(ULE(v0_['pos'], vk_['pos']), ULE(vk_['pos'], vk_['end'])))
                 if vk_.get('kind') == 'rslice':
                     inv.pc.append(z3.And(ULE(vk_['end'], v0_['end']), ULE(vk_['pos'], vk_['end'])))
+                if vk_.get('kind') == 'take':      # the remaining budget of a Take adaptor only counts down (never wraps)
+                    inv.pc.append(ULE(vk_['n'], v0_['n']))
                 if vk_.get('kind') == 'source' and 'count' in vk_:
                     inv.pc.append(z3.And(ULE(v0_['yielded'], vk_['yielded']), ULE(vk_['yielded'], vk_['count'])))
                 for k_ in vk_:
@@ -1440,6 +1447,12 @@ class Exec:
 
     def call_closure2(s, st, cc, args, where):
         clo = st.get(cc, ())
+        if isinstance(clo, dict) and clo.get('__builtin__') == 'vec_push':
+            v = st.get(clo['vec'].cell, clo['vec'].path)
+            s.require(st, ULT(v['len'], st.notes['cap'][v['arr']]), 'Vec::extend pushes beyond the reserved capacity (reallocation is not modelled)', where)
+            s.ev_write(st, v['arr'], v['len'], args[0], where)
+            v['len'] = v['len'] + 1
+            return [(st, 'ret', UNIT)]
         if isinstance(clo, dict) and '__closure__' in clo:
             fn = s.closures[clo['__closure__']]
             me = Ref(cc, ()) if fn.ptypes[0].startswith('&') else clo      # FnOnce closures take themselves by value
@@ -1820,12 +1833,69 @@ class Exec:
                 st.blocks[b.ptr.block] = 'allocated'      # owned by a raw pointer now: nobody frees it unless it is re-boxed
                 st.events.append('Box::into_raw(%s)' % b.ptr.block.name)
                 return R(b.ptr)
+            if isinstance(b, BoxVal) and isinstance(b.ptr, Slice) and getattr(b.ptr, 'block', None) in st.blocks:
+                st.blocks[b.ptr.block] = 'allocated'
+                st.events.append('Box::<[T]>::into_raw(%s)' % b.ptr.block.name)
             return R(b.ptr if isinstance(b, BoxVal) else b)
         if re.match(r'Box::<.*>::from_raw', c):
             p = args[0]
+            if isinstance(p, Slice) and getattr(p, 'block', None) is not None and 'GenericArray<T, N>' in c:
+                # re-boxing a slice allocation as Box<GenericArray<T, N>>: it will be freed with the layout of N elements
+                cap = st.notes.get('cap', {}).get(p.arr)
+                if cap is not None:
+                    s.require(st, z3.Or(cap == s.N, s.S == 0), 'heap block re-boxed under a layout (N elements) that differs from the one it was allocated with', where)
+                if p.block in st.blocks:
+                    st.blocks[p.block] = 'boxed'
+                return R(BoxVal(BlockPtr(p.block), init=True))
             if isinstance(p, BlockPtr) and p.block in st.blocks:
                 st.blocks[p.block] = 'boxed'
             return R(BoxVal(p, init=not c.startswith('Box::<MaybeUninit<')))
+        # ---- Vec<T> / Box<[T]> (std, by contract): {'kind': 'vec', 'arr': buffer (capacity elements), 'len', 'blk'}; st.notes['cap'][arr] = capacity
+        if re.match(r'Vec::<T>::with_capacity$', c):
+            st.calls += 1
+            arr = Arr('Heap%d' % st.calls, args[0])
+            blk = Block('V%d' % st.calls, arr)
+            st.blocks[blk] = 'vec'
+            st.notes = dict(st.notes)
+            st.notes['cap'] = dict(st.notes.get('cap', {})); st.notes['cap'][arr] = args[0]
+            st.events.append('Vec::with_capacity -> %s' % blk.name)
+            return R({'kind': 'vec', 'arr': arr, 'len': bv(0), 'blk': blk})
+        if re.match(r'Vec::<T>::(len|capacity)$', c):
+            v = st.get(args[0].cell, args[0].path)
+            return R(v['len'] if c.endswith('len') else st.notes['cap'][v['arr']])
+        if re.match(r'Vec::<T>::set_len$', c):
+            v = st.get(args[0].cell, args[0].path)
+            s.require(st, ULE(args[1], st.notes['cap'][v['arr']]), 'Vec::set_len beyond the capacity', where)
+            s.require(st, z3.Implies(z3.And(ULT(s.J, args[1]), ULT(s.J, v['arr'].len)), s.stat(st, v['arr']) == LIVE), 'Vec::set_len over a slot that is not initialised', where)
+            v['len'] = args[1]
+            st.events.append('Vec::set_len(%s)' % z3.simplify(args[1]))
+            return R(UNIT)
+        if re.match(r'Vec::<T>::spare_capacity_mut$', c):
+            v = st.get(args[0].cell, args[0].path)
+            return R(with_prov(Slice(v['arr'], v['len'], st.notes['cap'][v['arr']]), 'mut'))
+        if re.match(r'Vec::<T>::as_(mut_)?ptr$', c):
+            v = st.get(args[0].cell, args[0].path)
+            return R(ElemPtr(v['arr'], bv(0)))
+        if re.match(r'^<Vec<T> as Extend<T>>::extend::<', c):
+            # std: for item in iter { reserve if full; write at len; len += 1 } - the length is published per item, so an unwinding Vec owns what was pushed
+            vref, it = args
+            clo = {'__builtin__': 'vec_push', 'vec': vref}
+            return [(s1, k, UNIT if k == 'ret' else None) for (s1, k, _) in s.for_each(st, it, clo, where)]
+        if re.match(r'Vec::<T>::into_boxed_slice$', c):
+            v = args[0]
+            st.notes = dict(st.notes)
+            st.notes['cap'] = dict(st.notes.get('cap', {})); st.notes['cap'][v['arr']] = v['len']      # shrink_to_fit: the block now has room for len elements exactly
+            st.blocks[v['blk']] = 'boxed'
+            st.events.append('Vec::into_boxed_slice (capacity := len)')
+            sl = Slice(v['arr'], bv(0), v['len'])
+            sl.block = v['blk']
+            return R(BoxVal(sl, init=True))
+        if re.match(r'^Result::<Box<GenericArray<T, N>>, LengthError>::unwrap$', c):
+            r = args[0]
+            if r.variant == 'Ok':
+                return R(r.fields[0])
+            st.events.append('unwrap on Err: panic')
+            return [(st, 'unwind', None)]
         # ---- iterator adaptors over slices / sources
         if re.search(r'<impl \[.*\]>::iter(_mut)?$', c):
             sl = args[0]
@@ -1913,8 +1983,10 @@ class Exec:
             s2.notes = dict(s2.notes); s2.notes['precision'] = P
             st.notes = dict(st.notes); st.notes['precision'] = None
             return [(st, 'ret', Enum('None', {})), (s2, 'ret', Enum('Some', {0: P}))]
-        if re.match(r'<\[u8\] as Index<RangeTo<usize>>>::index$', c):
+        if re.match(r'<\[.*\] as Index(Mut)?<RangeTo<usize>>>::index(_mut)?$', c):
             sl, r = args
+            if isinstance(sl, ArrRef):
+                sl = Slice(sl.arr, bv(0), sl.arr.len)
             ln = sl.end - sl.start
             outs = []
             if s.feasible(st, ULE(r[0], ln)):
@@ -2107,6 +2179,25 @@ class Exec:
                 outs.append((s1, k))
             return outs
         if head.startswith('GenericArray<MaybeUninit<') or head.startswith('MaybeUninit<'):
+            return [(st, 'ret')]
+        if head == 'Vec<T>' and isinstance(v, dict) and v.get('kind') == 'vec':
+            blk = v['blk']
+            s.ev_drop_range(st, v['arr'], bv(0), v['len'], where, what='drop Vec elements')
+            st.blocks[blk] = 'freed'
+            st.events.append('free %s (Vec dropped)' % blk.name)
+            outs = [(st, 'ret')]
+            s2 = st.clone()
+            if s.feasible(s2, ULT(bv(0), v['len'])):
+                s2.pc.append(ULT(bv(0), v['len']))
+                s2.events.append('  ^an element destructor panicked')
+                s.unwind_edges += 1
+                outs.append((s2, 'unwind'))
+            return outs
+        if head == 'Box<[T]>' and isinstance(v, BoxVal) and isinstance(v.ptr, Slice):
+            sl = v.ptr
+            s.ev_drop_range(st, sl.arr, sl.start, sl.end, where, what='drop boxed slice')
+            if getattr(sl, 'block', None) in st.blocks:
+                st.blocks[sl.block] = 'freed'
             return [(st, 'ret')]
         if head.startswith('Box<MaybeUninit<GenericArray<') or (isinstance(v, BoxVal) and not v.init):
             if isinstance(v, BoxVal) and isinstance(v.ptr, BlockPtr) and v.ptr.block in st.blocks:
